@@ -296,7 +296,7 @@ type c19Op struct {
 	Arg int    `json:"arg,omitempty"` // predicate selector
 }
 
-var c19OpKinds = []string{"set", "update", "delete", "filter", "map", "find", "mapfail"}
+var c19OpKinds = []string{"set", "update", "delete", "filter", "map", "find", "mapfail", "filterpanic"}
 
 var errC19Map = errors.New("callback refuses")
 
@@ -375,6 +375,29 @@ func c19Apply(r *mon.Run, cs c19Case) bool {
 				fail(i, "filter-visits", fmt.Sprintf("Filter visited keys %v, an insertion-ordered dict visits %v", seen, want))
 				return false
 			}
+		case "filterpanic":
+			// the predicate panics at its (Arg+1)-th visit; the caller recovers and goes on using the container: the
+			// keys refused before the panic are gone, everything else is as it was
+			visits := 0
+			pred := c19Pred(op.V)
+			mon.Guard(func() {
+				m.Filter(func(k, v int) bool {
+					visits++
+					if visits == op.Arg+1 {
+						panic("predicate gives up")
+					}
+					return pred(k, v)
+				})
+			})
+			var keep []int
+			for i, k := range d.keys {
+				if i < op.Arg && !pred(k, d.vals[k]) {
+					delete(d.vals, k)
+					continue
+				}
+				keep = append(keep, k)
+			}
+			d.keys = keep
 		case "map":
 			p = mon.Guard(func() { _ = m.Map(func(k, v int) (int, error) { return v*2 + k, nil }) })
 			for _, k := range d.keys {
@@ -457,7 +480,7 @@ func opsString(ops []c19Op) string {
 			fmt.Fprintf(&sb, "set(%d,%d)", o.K, o.V)
 		case "update", "delete":
 			fmt.Fprintf(&sb, "%s(%d)", o.Op, o.K)
-		case "filter", "find":
+		case "filter", "find", "filterpanic", "mapfail":
 			fmt.Fprintf(&sb, "%s(p%d)", o.Op, o.Arg%6)
 		default:
 			sb.WriteString(o.Op)
@@ -571,8 +594,18 @@ func c19ApplySet(r *mon.Run, cs c19SetCase) bool {
 			vv = append(vv, c19KeyNames[k])
 			add(k)
 		}
-		arg := append([]string(nil), vv...)
-		if p := mon.Guard(func() { s = jschema.NewStringSet(arg...) }); p != nil {
+		// the argument slice is the caller's (with spare capacity, as a slice built by append has): a second set is
+		// built from it and gets an element added, and the slice is overwritten afterwards - neither may show in s
+		arg := append(make([]string, 0, len(vv)+4), vv...)
+		if p := mon.Guard(func() {
+			s = jschema.NewStringSet(arg...)
+			other := jschema.NewStringSet(arg...)
+			other.Add("only in the other set")
+			s.Len()
+			for i := range arg {
+				arg[i] = "overwritten by the caller"
+			}
+		}); p != nil {
 			r.Violate("panic", desc, p.Value, cs)
 			return false
 		}
@@ -629,6 +662,7 @@ func c19Alphabet(nKeys int) []c19Op {
 		ops = append(ops, c19Op{Op: "filter", Arg: sel})
 	}
 	ops = append(ops, c19Op{Op: "mapfail", Arg: 0}, c19Op{Op: "mapfail", Arg: 1})
+	ops = append(ops, c19Op{Op: "filterpanic", Arg: 1, V: 1}, c19Op{Op: "filterpanic", Arg: 2, V: 3})
 	ops = append(ops, c19Op{Op: "map"}, c19Op{Op: "find", Arg: 3}, c19Op{Op: "find", Arg: 5}, c19Op{Op: "delete", K: nKeys}) // last: a key never set
 	return ops
 }
@@ -765,7 +799,7 @@ func init() {
 				c19ApplySet(r, ss)
 			}
 		},
-		Rule:               "every sequence of <= L operations (L=4 quick, 5 thorough) over an alphabet of 21 operations {set/delete of 3 keys (one holds a control character), update, set-existing, 5 filter predicates, map, map with a callback that fails at its 1st / 2nd visit and hands back a value with the error, 2 find predicates, delete of a never-set key} is applied to a fresh RuleASTNodes, ASTNodes and Constraints container and to a reference insertion-ordered dict; Len/Has/Get/GetValue/Each/EachSafe/MarshalJSON are compared after every operation, and the bytes MarshalJSON returned are kept and must still read the same after the next operation's MarshalJSON calls (on this and on another container of the kind); plus random sequences of <= 40 operations over 7 keys (some need JSON escaping), sequences of 200-900 operations over 308 keys on the two string-keyed containers (sizes crossing 8..256 entries), and all StringSet constructor/Add lists of length <= 3 over 3 names. distinct_nontrivial = distinct operation sequences (hashed text), every one of which mutates or queries the container at least once.",
+		Rule:               "every sequence of <= L operations (L=4 quick, 5 thorough) over an alphabet of 23 operations {set/delete of 3 keys (one holds a control character), update, set-existing, 5 filter predicates, map, map with a callback that fails at its 1st / 2nd visit and hands back a value with the error, 2 find predicates, filter with a predicate that panics at its 2nd / 3rd visit (the caller recovers and goes on), delete of a never-set key} is applied to a fresh RuleASTNodes, ASTNodes and Constraints container and to a reference insertion-ordered dict; Len/Has/Get/GetValue/Each/EachSafe/MarshalJSON are compared after every operation, and the bytes MarshalJSON returned are kept and must still read the same after the next operation's MarshalJSON calls (on this and on another container of the kind); plus random sequences of <= 40 operations over 7 keys (some need JSON escaping), sequences of 200-900 operations over 308 keys on the two string-keyed containers (sizes crossing 8..256 entries), and all StringSet constructor/Add lists of length <= 3 over 3 names (the constructor's argument slice is reused for a second set and overwritten afterwards). distinct_nontrivial = distinct operation sequences (hashed text), every one of which mutates or queries the container at least once.",
 		MinNontrivialQuick: 10000, MinNontrivialThorough: 100000,
 		Assumptions: []string{"reference model: 40-line insertion-ordered dict in harness/internal/props/c19.go", "encoding/json decides JSON validity and key order of MarshalJSON output",
 			"Constraints.MarshalJSON: the spelling of keys is not judged (documentation silent), only validity, entry count, uniqueness"},
